@@ -1,3 +1,3 @@
-import alloc_common
-A = alloc_common.pairs()
-PAIRS = [A[k] for k in ("realloc_zero", "reallocn", "recalloc", "reallocf", "fwd_realloc", "fwd_reallocf", "fwd_rezalloc", "expand")]
+import alloc_common, aligned_common
+A = alloc_common.pairs(); B = aligned_common.pairs()
+PAIRS = [A[k] for k in ("realloc_zero", "reallocn", "recalloc", "reallocf", "fwd_realloc", "fwd_reallocf", "fwd_rezalloc", "expand")] + [v for k, v in B.items() if k.startswith("realloc_aligned_")]
